@@ -61,7 +61,7 @@ impl Check for C03 {
         let mut fs = FaultStats::default();
         let mut doc = cases::doc_opts_for(tier, &mut rng);
         doc.raw_pct = *rng.pick(&[0u64, 0, 10]);
-        let io = InputOpts { doc, faulted_pct: 30, truncated_pct: 10, random_pct: 5, soup_pct: 5, max_faults: 3 };
+        let io = InputOpts { doc, faulted_pct: 30, truncated_pct: 10, random_pct: 5, soup_pct: 5, max_faults: 3, mid_document_pct: 8 };
         let gi = cases::gen_input(&mut rng, &spec, &io, &mut fs);
         let valid = gi.class == "valid";
         let mut cfg = IterCfg::default();
